@@ -131,3 +131,63 @@ func H07_Mux() {
 	}
 	verif.Reach("end")
 }
+
+// H07_MuxUnregister: "also while clients register, unregister ... concurrently with arriving bundles": three or four
+// children own the destination; the first child's mailbox is unbuffered, so the multiplexer's fan-out pauses there;
+// meanwhile another child (any of the others) shuts down and is unregistered, or a new child registers; then the fan-out
+// continues. Every child that stays registered receives the bundle exactly once with unchanged content, the leaving
+// child at most once, and nothing panics (no send on the closed mailbox of the child that left).
+func H07_MuxUnregister() {
+	mux := NewMuxAgent()
+	k := verif.Size("children", 3, 4)
+	kids := make([]*mockChild, k)
+	for i := 0; i < k; i++ {
+		depth := 4
+		if i == 0 {
+			depth = 0 // the fan-out blocks at the first child until the harness takes the message
+		}
+		kids[i] = &mockChild{eps: []bpv7.EndpointID{eidOf(0)}, rx: make(chan Message, depth), tx: make(chan Message)}
+		mux.Register(kids[i])
+	}
+	b := bundleTo(0)
+	mux.MessageReceiver() <- BundleMessage{Bundle: b}
+	time.Sleep(time.Millisecond) // the handler is now blocked handing the message to child 0
+	leaver := -1
+	var joiner *mockChild
+	switch verif.Choose("change", 3) {
+	case 0: // nothing changes
+	case 1: // another child leaves
+		leaver = verif.Size("leaver", 1, k-1)
+		go func() { kids[leaver].tx <- ShutdownMessage{} }()
+	case 2: // a new child registers
+		joiner = &mockChild{eps: []bpv7.EndpointID{eidOf(0)}, rx: make(chan Message, 4), tx: make(chan Message)}
+		go mux.Register(joiner)
+	}
+	time.Sleep(time.Millisecond)
+	first := <-kids[0].rx // the fan-out continues
+	bm, ok := first.(BundleMessage)
+	verif.Assert(ok && sameBundle(bm.Bundle, b), "the first child gets the bundle with unchanged content")
+	time.Sleep(time.Millisecond)
+	for i := 1; i < k; i++ {
+		n := 0
+		for len(kids[i].rx) > 0 {
+			m, open := <-kids[i].rx
+			if !open {
+				break
+			}
+			if bm, isB := m.(BundleMessage); isB {
+				verif.Assert(sameBundle(bm.Bundle, b), "unchanged content")
+				n++
+			}
+		}
+		if i == leaver {
+			verif.Assert(n <= 1, "a child that leaves during the fan-out gets the bundle at most once")
+		} else {
+			verif.Assert(n == 1, "every child that stays registered gets the bundle exactly once, also while another one unregisters or registers")
+		}
+	}
+	if joiner != nil {
+		verif.Assert(len(joiner.rx) <= 1, "a child that registers during the fan-out gets the bundle at most once")
+	}
+	verif.Reach("end")
+}
